@@ -1,1 +1,293 @@
-/-! # C17 — property theorems (not built yet) -/
+import RsMatterVerif.Lemmas.CodecBuf
+import RsMatterVerif.Lemmas.CodecBase38
+import RsMatterVerif.Lemmas.CodecVerhoeff
+import RsMatterVerif.Lemmas.CodecManual
+import RsMatterVerif.Lemmas.CodecHeaders
+import RsMatterVerif.Lemmas.CodecBtpBdx
+import RsMatterVerif.Lemmas.CodecQr
+import RsMatterVerif.Lemmas.CodecCheckIn
+import RsMatterVerif.Lemmas.CodecBleAdv
+/-!
+# C17 — headers, onboarding payloads and discovery records decode what was encoded
+
+For every modelled codec: `decode (encode x) = ok x` under an explicit, decidable well-formedness
+predicate (with an `example` that it is satisfiable), totality / absence of panics of the decoder on
+arbitrary input (`NoPanic`: the model's checked cursor / index arithmetic never answers
+`Err.panic`), and the refusal clauses of the property (wrong check digit, invalid base-38 character
+or length class, out-of-range fields).
+
+The proofs live in `Lemmas/Codec*.lean`; this file states the property-level theorems.
+Formats that are *not* modelled (BLE advertisement, mDNS records, Matter-TLV ↔ X.509) are only
+exercised on the implementation by the harness — nothing is claimed for them here.
+-/
+namespace C17
+open Codec
+
+/-! ## (0) the cursor arithmetic every codec sits on (`ParseBuf` / `WriteBuf`) -/
+
+/-- under the structure invariant (established by `new`, preserved by every primitive) each read
+primitive of the cursor model equals the list-level reader the codec models use, and none of the
+checked slice / index / subtraction operations can panic -/
+theorem parsebuf_refines (b : RBuf) (h : b.Inv) (n : Nat) :
+    (match b.leU8 with
+      | .ok (x, b') => Rd.u8 b.rem = .ok (x, b'.rem) ∧ b'.Inv
+      | .error e => Rd.u8 b.rem = .error e) ∧
+    (match b.parseArr n with
+      | .ok (a, b') => Rd.arr n b.rem = .ok (a, b'.rem) ∧ b'.Inv
+      | .error e => Rd.arr n b.rem = .error e) ∧
+    (match b.tail n with
+      | .ok (t, b') => Rd.tail n b.rem = .ok (t, b'.rem) ∧ b'.Inv
+      | .error e => Rd.tail n b.rem = .error e) ∧
+    NoPanic b.leU8 ∧ NoPanic (b.parseArr n) ∧ NoPanic (b.tail n) ∧ NoPanic b.asSlice :=
+  ⟨RBuf.leU8_refines b h, RBuf.parseArr_refines b n h, RBuf.tail_refines b n h, RBuf.primitives_np b h n⟩
+example : (RBuf.new [1, 2, 3]).Inv := RBuf.new_inv _
+
+/-- a write either appends exactly the bytes or fails with `NoSpace`; never a panic -/
+theorem writebuf_append (w : WBuf) (src : List Nat) (h : w.Inv) :
+    (if w.stop + src.length ≤ w.bufSize then
+      ∃ w', w.append src = .ok w' ∧ w'.written = w.written ++ src ∧ w'.Inv ∧ w'.start = w.start ∧ w'.bufSize = w.bufSize
+    else w.append src = .error .noSpace) ∧ NoPanic (w.append src) :=
+  ⟨WBuf.append_spec w src h, WBuf.append_np w src h⟩
+example : (WBuf.new 8).Inv := WBuf.new_inv _
+
+/-! ## (1) base-38 -/
+
+/-- every byte string survives encode → decode -/
+theorem base38_decode_encode (bs : List Nat) (h : ∀ b ∈ bs, b < 256) :
+    ∃ cs, Base38.encode bs = .ok cs ∧ Base38.decodeVec cs = .ok bs := by
+  obtain ⟨cs, h1, h2⟩ := Base38.decode_encode bs h
+  exact ⟨cs, h1, by simp [Base38.decodeVec, h2]⟩
+example : ∀ b ∈ [0x88, 0xff, 0xa7], b < 256 := by decide
+
+/-- every canonical string survives decode → encode (so the decoder is injective on canonical strings) -/
+theorem base38_encode_decode (s : List Nat) (h : Base38.canonical s = true) :
+    ∃ bs, Base38.decodeVec s = .ok bs ∧ Base38.encode bs = .ok s := by
+  obtain ⟨h1, h2⟩ := Base38.encode_decode s h
+  refine ⟨(Base38.decode s).1, ?_, h2⟩
+  simp only [Base38.decodeVec]
+  cases hd : Base38.decode s with
+  | mk bs e => rw [hd] at h1; simp at h1; subst h1; rfl
+example : Base38.canonical [45, 77, 79, 65, 53, 55, 48] = true := by decide
+
+/-- the decoder never panics and fails only with `InvalidData` -/
+theorem base38_decode_total (s : List Nat) : NoPanic (Base38.decodeVec s) := by
+  simp only [Base38.decodeVec, NoPanic]
+  cases hd : Base38.decode s with
+  | mk bs e =>
+    cases e with
+    | none => simp
+    | some e =>
+      have := Base38.decode_error s e (by rw [hd])
+      subst this; simp
+
+/-- a character outside the alphabet is refused -/
+theorem base38_invalid_char_rejected (s : List Nat) (c : Nat) (hc : c ∈ s) (hbad : c ∉ Base38.alphabet) :
+    Base38.decodeVec s = .error .invalidData := by
+  have hb : Base38.decChar c = .error .invalidData := by
+    rcases Base38.decChar_cases c with ⟨d, _, _, ha⟩ | he
+    · exact absurd (List.mem_of_getElem? ha) hbad
+    · exact he
+  have := Base38.decode_rejects_invalid_char s c hc hb
+  simp only [Base38.decodeVec]
+  cases hd : Base38.decode s with
+  | mk bs e => rw [hd] at this; simp at this; subst this; rfl
+example : (33 : Nat) ∈ [48, 33] ∧ (33 : Nat) ∉ Base38.alphabet := by decide
+
+/-- a string whose length is 1 or 3 modulo 5 (no such encoding exists) is refused -/
+theorem base38_bad_length_rejected (s : List Nat) (h : s.length % 5 = 1 ∨ s.length % 5 = 3) :
+    Base38.decodeVec s = .error .invalidData := by
+  have := Base38.decode_rejects_bad_length s h
+  simp only [Base38.decodeVec]
+  cases hd : Base38.decode s with
+  | mk bs e => rw [hd] at this; simp at this; subst this; rfl
+
+/-! ## (2) Verhoeff check digit and the manual pairing code -/
+
+/-- 11-digit code: `parse_pairing_code (compute_pairing_code d p)` = (d >> 8, p) -/
+theorem manual_code_parse_encode (disc pw : Nat) (hd : disc < 4096) (hp : pw < 134217728) :
+    ∃ code, ManualCode.encode disc pw = .ok code ∧ code.length = 11 ∧
+      ManualCode.parse code = .ok { short := disc / 256, pass := pw, vid := 0, pid := 0, long := false } :=
+  ManualCode.parse_encode disc pw hd hp
+example : (3840 : Nat) < 4096 ∧ (20202021 : Nat) < 134217728 := by decide
+
+/-- 21-digit code (specification-side encoder; rs-matter only has the decoder): the decoder inverts the
+format of the Matter specification, including vendor and product id -/
+theorem manual_code_long_parse_spec_encode (disc pw vid pid : Nat) (hd : disc < 4096) (hp : pw < 134217728)
+    (hv : vid < 65536) (hpd : pid < 65536) :
+    ∃ code, ManualCode.specEncodeLong disc pw vid pid = .ok code ∧ code.length = 21 ∧
+      ManualCode.parse code = .ok { short := disc / 256, pass := pw, vid := vid, pid := pid, long := true } :=
+  ManualCode.parse_specEncodeLong disc pw vid pid hd hp hv hpd
+
+theorem manual_code_parse_total (code : List Nat) : NoPanic (ManualCode.parse code) :=
+  ManualCode.parse_np code
+
+/-- every single-digit substitution in a code that validates is detected -/
+theorem verhoeff_detects_substitution (pre post : List Nat) (a b : Nat)
+    (ha : Verhoeff.isDigit a = true) (hb : Verhoeff.isDigit b = true) (hne : a ≠ b)
+    (h : Verhoeff.validate (pre ++ a :: post) = true) : Verhoeff.validate (pre ++ b :: post) = false :=
+  Verhoeff.validate_subst pre post a b ha hb hne h
+
+/-- every transposition of two different adjacent digits is detected -/
+theorem verhoeff_detects_transposition (pre post : List Nat) (a b : Nat)
+    (ha : Verhoeff.isDigit a = true) (hb : Verhoeff.isDigit b = true) (hne : a ≠ b)
+    (h : Verhoeff.validate (pre ++ a :: b :: post) = true) : Verhoeff.validate (pre ++ b :: a :: post) = false :=
+  Verhoeff.validate_transpose pre post a b ha hb hne h
+example : Verhoeff.validate [50, 51, 54, 51] = true := by decide
+
+/-- a code with a wrong check digit is refused (10 or 20 digits followed by a digit that is not their
+Verhoeff digit) -/
+theorem manual_code_bad_check_digit_rejected (digits : List Nat) (c k : Nat)
+    (hdig : ∀ x ∈ digits, Verhoeff.isDigit x = true) (hlen : digits.length = 10 ∨ digits.length = 20)
+    (hc : Verhoeff.isDigit c = true) (hk : Verhoeff.calculate digits = .ok k) (hne : c ≠ 48 + k) :
+    ManualCode.parse (digits ++ [c]) = .error .invalidData :=
+  ManualCode.parse_rejects_wrong_check_digit digits c hdig hlen hc k hk hne
+
+/-- any code (with or without separators) whose digits do not validate is refused -/
+theorem manual_code_invalid_checksum_rejected (code ds : List Nat) (hs : ManualCode.strip code [] = .ok ds)
+    (hv : Verhoeff.validate ds = false) : ManualCode.parse code = .error .invalidData :=
+  ManualCode.parse_rejects_bad_check code ds hs hv
+
+/-! ## (3) plain message header -/
+
+theorem plain_hdr_decode_encode (h h0 : PlainHdr.Hdr) (rest : List Nat) (hwf : PlainHdr.WF h) :
+    ∃ h', PlainHdr.decode h0 (PlainHdr.encodeBytes h ++ rest) = .ok (h', rest) ∧ PlainHdr.view h' = PlainHdr.view h :=
+  PlainHdr.decode_encode h h0 rest hwf
+
+theorem plain_hdr_decode_encode_exact (h : PlainHdr.Hdr) (rest : List Nat) (hwf : PlainHdr.WF h)
+    (hc : PlainHdr.Canon h) : PlainHdr.decode {} (PlainHdr.encodeBytes h ++ rest) = .ok (h, rest) :=
+  PlainHdr.decode_encode_exact h rest hwf hc
+example : PlainHdr.WF { flags := 6, sessId := 7, secFlags := 0xE1, ctr := 9, src := 11, dst := 13 } ∧
+    PlainHdr.Canon { flags := 6, sessId := 7, secFlags := 0xE1, ctr := 9, src := 11, dst := 13 } := by decide
+
+theorem plain_hdr_decode_total (h0 : PlainHdr.Hdr) (l : List Nat) : NoPanic (PlainHdr.decode h0 l) :=
+  PlainHdr.decode_np h0 l
+
+/-! ## (4) protocol header -/
+
+theorem proto_hdr_decode_encode (h h0 : ProtoHdr.Hdr) (rest : List Nat) (hwf : ProtoHdr.WF h) :
+    ∃ h', ProtoHdr.decode h0 (ProtoHdr.encodeBytes h ++ rest) = .ok (h', rest) ∧ ProtoHdr.view h' = ProtoHdr.view h :=
+  ProtoHdr.decode_encode h h0 rest hwf
+
+theorem proto_hdr_decode_encode_exact (h : ProtoHdr.Hdr) (rest : List Nat) (hwf : ProtoHdr.WF h)
+    (hc : ProtoHdr.Canon h) : ProtoHdr.decode {} (ProtoHdr.encodeBytes h ++ rest) = .ok (h, rest) :=
+  ProtoHdr.decode_encode_exact h {} rest hwf hc ⟨rfl, rfl⟩
+example : ProtoHdr.WF { exchId := 1, flags := 0x13, protoId := 2, opcode := 3, vendorId := 4, ackCtr := 5 } ∧
+    ProtoHdr.Canon { exchId := 1, flags := 0x13, protoId := 2, opcode := 3, vendorId := 4, ackCtr := 5 } := by decide
+
+theorem proto_hdr_decode_total (h0 : ProtoHdr.Hdr) (l : List Nat) : NoPanic (ProtoHdr.decode h0 l) :=
+  ProtoHdr.decode_np h0 l
+
+/-! ## (5) status report -/
+
+theorem status_report_read_write (r : StatusReport.Report) (hwf : StatusReport.WF r) :
+    StatusReport.read (StatusReport.writeBytes r) = .ok r :=
+  StatusReport.read_write r hwf
+
+theorem status_report_read_total (l : List Nat) : NoPanic (StatusReport.read l) :=
+  StatusReport.read_np l
+
+theorem status_report_unknown_general_code_rejected (g : Nat) (rest : List Nat)
+    (h : StatusReport.GENERAL_CODE_MAX < g) (h' : g < 65536) :
+    StatusReport.read (le16 g ++ rest) = .error .invalidOpcode :=
+  StatusReport.read_rejects_general g rest h h'
+
+/-! ## (6) QR onboarding payload: 3+16+16+2+8+12+27+4 bits, base-38 body, optional TLV tail -/
+
+/-- `parse (as_str q) = q`, including any optional-TLV bytes -/
+theorem qr_parse_encode (q : QrPayload.Qr) (hwf : QrPayload.WF q) (cap : Nat) (hcap : 11 + q.tlv.length ≤ cap) :
+    ∃ cs, QrPayload.encode q = .ok cs ∧ QrPayload.parse cs cap = .ok q :=
+  QrPayload.parse_encode q hwf cap hcap
+def qrSample : QrPayload.Qr :=
+  { version := 0, vid := 9050, pid := 65279, flow := 0, rendezvous := 2, disc := 2976
+    pass := 34567890, tlv := [0x15, 0x18] }
+example : QrPayload.WF qrSample := by
+  refine ⟨by decide, by decide, by decide, by decide, by decide, by decide, by decide, ?_⟩
+  intro b hb; simp [qrSample] at hb; omega
+
+theorem qr_parse_total (s : List Nat) (cap : Nat) : NoPanic (QrPayload.parse s cap) :=
+  QrPayload.parse_np s cap
+
+/-- out-of-range / malformed QR texts are refused: no `MT:` prefix, a character outside the base-38
+alphabet, an impossible length class, fewer than 11 decoded bytes, the undefined commissioning flow 3 -/
+theorem qr_out_of_range_rejected :
+    (∀ s cap, QrPayload.stripPrefix s = none → QrPayload.parse s cap = .error .invalidData) ∧
+    (∀ body cap, ((∃ c ∈ body, c ∉ Base38.alphabet) ∨ body.length % 5 = 1 ∨ body.length % 5 = 3) →
+      ∃ e, QrPayload.parse (QrPayload.PREFIX ++ body) cap = .error e) ∧
+    (∀ body bytes cap, Base38.decode body = (bytes, none) → bytes.length < 11 →
+      ∃ e, QrPayload.parse (QrPayload.PREFIX ++ body) cap = .error e) ∧
+    (∀ body bytes cap, Base38.decode body = (bytes, none) → (∀ b ∈ bytes, b < 256) → 11 ≤ bytes.length →
+      bytes.length ≤ cap → fromLe bytes / 2 ^ 35 % 2 ^ 2 = 3 →
+      QrPayload.parse (QrPayload.PREFIX ++ body) cap = .error .invalidData) :=
+  ⟨QrPayload.parse_rejects_prefix, QrPayload.parse_rejects_bad_base38, QrPayload.parse_rejects_short,
+   QrPayload.parse_rejects_flow⟩
+
+/-! ## (7) BTP packet header and handshake -/
+
+theorem btp_hdr_decode_encode (h h0 : BtpHdr.Hdr) (rest : List Nat) (hwf : BtpHdr.WF h) :
+    ∃ h', BtpHdr.decode h0 (BtpHdr.encodeBytes h ++ rest) = .ok (h', rest) ∧ BtpHdr.view h' = BtpHdr.view h :=
+  BtpHdr.decode_encode h h0 rest hwf
+example : BtpHdr.WF { flags := 0x0D, opcode := 0, ackNum := 3, seqNum := 4, msgLen := 300 } := by decide
+
+theorem btp_hdr_decode_total (h0 : BtpHdr.Hdr) (l : List Nat) : NoPanic (BtpHdr.decode h0 l) :=
+  BtpHdr.decode_np h0 l
+
+theorem btp_handshake_req_decode_encode (r : BtpHdr.Req) (rest : List Nat) (hwf : BtpHdr.Req.WF r) :
+    BtpHdr.Req.decode (BtpHdr.Req.encodeBytes r ++ rest) = .ok (r, rest) :=
+  BtpHdr.req_decode_encode r rest hwf
+example : BtpHdr.Req.WF { versions := 4, mtu := 247, window := 6 } := by
+  refine ⟨by decide, by decide, by decide⟩
+
+theorem btp_handshake_resp_decode_encode (r : BtpHdr.Resp) (rest : List Nat) (hwf : BtpHdr.Resp.WF r) :
+    BtpHdr.Resp.decode (BtpHdr.Resp.encodeBytes r ++ rest) = .ok (r, rest) :=
+  BtpHdr.resp_decode_encode r rest hwf
+example : BtpHdr.Resp.WF { version := 4, mtu := 247, window := 6 } := by
+  refine ⟨by decide, by decide, by decide⟩
+
+theorem btp_handshake_decode_total (l : List Nat) :
+    NoPanic (BtpHdr.Req.decode l) ∧ NoPanic (BtpHdr.Resp.decode l) :=
+  ⟨BtpHdr.req_decode_np l, BtpHdr.resp_decode_np l⟩
+
+/-! ## (8) check-in message framing, symbolic AEAD -/
+
+theorem checkin_parse_generate (S : CheckIn.Scheme) (hS : S.Sound) (key app : List Nat) (ctr cap : Nat)
+    (hc : ctr < 4294967296) (hcap : CheckIn.MIN_PAYLOAD_LEN + app.length ≤ cap) :
+    ∃ p, CheckIn.generate S key ctr app cap = .ok p ∧ p.length = CheckIn.MIN_PAYLOAD_LEN + app.length ∧
+      CheckIn.parse S key p = .ok (ctr, app) :=
+  CheckIn.parse_generate S hS key app ctr cap hc hcap
+example : CheckIn.toyScheme.Sound := CheckIn.toyScheme_sound
+
+theorem checkin_parse_total (S : CheckIn.Scheme) (hS : S.Sound) (key payload : List Nat) :
+    NoPanic (CheckIn.parse S key payload) :=
+  CheckIn.parse_np S hS key payload
+
+/-! ## (9) BDX messages -/
+
+theorem bdx_init_parse_write (t : Bdx.TransferInit) (hwf : Bdx.TransferInit.WF t) :
+    Bdx.TransferInit.parse t.writeBytes = .ok t :=
+  Bdx.init_parse_write t hwf
+
+theorem bdx_accept_parse_write (t : Bdx.TransferAccept) (hwf : Bdx.TransferAccept.WF t) :
+    Bdx.TransferAccept.parse t.receive t.writeBytes = .ok t :=
+  Bdx.accept_parse_write t hwf
+
+theorem bdx_block_parse_write (b : Bdx.Block) (h : b.counter < 4294967296) : Bdx.Block.parse b.writeBytes = .ok b :=
+  Bdx.block_parse_write b h
+
+theorem bdx_parsers_total (l : List Nat) (r : Bool) :
+    NoPanic (Bdx.TransferInit.parse l) ∧ NoPanic (Bdx.TransferAccept.parse r l) ∧ NoPanic (Bdx.Block.parse l) ∧
+    NoPanic (Bdx.blockQueryParse l) ∧ NoPanic (Bdx.blockQuerySkipParse l) :=
+  ⟨Bdx.init_parse_np l, Bdx.accept_parse_np r l, Bdx.block_parse_np l, Bdx.blockQuery_np l, Bdx.blockQuerySkip_np l⟩
+
+/-! ## (10) BLE advertisement payload of a commissionable device (`AdvData`) -/
+
+theorem ble_adv_parse_encode (a : BleAdv.Adv) (hwf : BleAdv.WF a) :
+    BleAdv.parseServiceData (BleAdv.servicePayload a) = .ok (some a) ∧ BleAdv.parseAdv (BleAdv.encode a) = .ok (some a) :=
+  BleAdv.parse_encode a hwf
+example : BleAdv.WF { vid := 0xFFF1, pid := 0x8000, disc := 0xF00, additional := false } := by
+  refine ⟨by decide, by decide, by decide⟩
+
+theorem ble_adv_parse_total (adv : List Nat) :
+    NoPanic (BleAdv.parseAdv adv) ∧ NoPanic (BleAdv.parseServiceData adv) :=
+  ⟨BleAdv.parseAdv_np adv, BleAdv.parseServiceData_np adv⟩
+
+end C17
